@@ -561,3 +561,5 @@ MUTANTS = [
                     raise Type4TagCommandError(nfc.tag.RECEIVE_ERROR)
 """)], None, 'C12-R2'),
 ]
+
+EXPLANATION += ' Round 5: driver error classification (C13-R2) and the single driver hand-over of the frontend are obligations of this check too.'
